@@ -386,7 +386,17 @@ SPEC = {
 }
 
 MANIFEST = {
-    'level_note': 'rung 1 complete for ALL documents (offsets_exact sound+complete, startxref_exact, entry and section shape); rung 2 complete at '
+    'level_text': 'Machine-checked proof (Coq) about a branch-faithful model of the save pipeline (Model/Save.v, both cross-reference formats) '
+                  'and of Reader::read (Model/Loader.v): for EVERY document the recorded xref offsets are exactly the object header positions and '
+                  'startxref is the body length (byte-counter invariant); every object the writer prints, streams included, parses back to its normal '
+                  'form at its recorded offset (lifting the token/object round trip object_rt); header, binary mark, trailer and the printed '
+                  'cross-reference table read back; and for the table format the whole theorem load (save_table d) = reloaded d with a second '
+                  'cycle (C01_roundtrip_table, C01_again_table) for every savable document outside the recorded known class. The model is tied to the '
+                  'crate by byte-for-byte equality of model and Document::save_to output, loader correspondence on saved and mutated files, and the '
+                  'direct save->load->compare verdict on the crate (two cycles, both formats, default features and --no-default-features).',
+    'technique': 'Coq proof (byte-counter invariant, printer/parser round trip by mutual induction, loader composition) + byte-for-byte differential correspondence',
+    'design_ref': 'DESIGN.md 6 C01, notes/C01.md',
+    'level_note': 'Trusted: Coq kernel; translator parts SaveFmt/Lex; extraction + OCaml driver; Rust harness; f32 Display/FromStr assumptions of DESIGN 3. Rung 1 complete for ALL documents (offsets_exact sound+complete, startxref_exact, entry and section shape); rung 2 complete at '
                   'file level (C14 object_rt lifted to indirect objects and streams, found at the recorded offset; header, binary mark, '
                   'get_xref_start, trailer, cross-reference table parse-back); rung 3 PARTIAL: C01_roundtrip_table = load (save_table d) = '
                   'reloaded_table d for every savable document outside the known class and C01_again_table (second cycle) are proved for the '
